@@ -16,16 +16,16 @@ import (
 )
 
 type c12Case struct {
-	Mode      string `json:"mode"` // graceful | silent | pending-poll | shutdown | http-shutdown
-	Transport string `json:"transport"`
-	Rev       int    `json:"rev"`
-	Buffered  int    `json:"buffered_sends"`
-	PollPending bool `json:"poll_pending"`
-	GateSend  bool   `json:"hold_writer_goroutine"`
-	Cause     string `json:"cause"`
-	Sessions  int    `json:"sessions"`
-	Upgrading bool   `json:"upgrade_in_progress"`
-	Seed      string `json:"seed"`
+	Mode        string `json:"mode"` // graceful | silent | pending-poll | shutdown | http-shutdown
+	Transport   string `json:"transport"`
+	Rev         int    `json:"rev"`
+	Buffered    int    `json:"buffered_sends"`
+	PollPending bool   `json:"poll_pending"`
+	GateSend    bool   `json:"hold_writer_goroutine"`
+	Cause       string `json:"cause"`
+	Sessions    int    `json:"sessions"`
+	Upgrading   bool   `json:"upgrade_in_progress"`
+	Seed        string `json:"seed"`
 }
 
 func genC12(rng *rand.Rand) c12Case {
